@@ -128,7 +128,20 @@ def parse_tv(out):
         if m.group(1) == "HW":
             hw = {int(a): int(b) for a, b in v}
         else:
-            cuts.setdefault(v["w"], {})["strict" if v["strict"] else "lenient"] = v
+            c = cuts.setdefault(v["w"], {})
+            if not v["strict"]:
+                c["lenient"] = v
+            elif "lenient" in c or True:
+                c.setdefault("strict_all", []).append(v)
+    # a write that failed with an unclassified error "may or may not have been committed": a strict behaviour that assumed
+    # it was can reach the Cut with a state that the acknowledged tx ids do not support; only strict passes that agree with the
+    # re-synchronised (lenient) state count
+    for c in cuts.values():
+        ok = [v for v in c.get("strict_all", []) if "lenient" not in c or
+              (all(v[k] == c["lenient"][k] for k in ("committed", "kv")) and
+               sorted(json.dumps(z, sort_keys=True) for z in v["zs"]) == sorted(json.dumps(z, sort_keys=True) for z in c["lenient"]["zs"]))]
+        if ok:
+            c["strict"] = ok[0]
     return cuts, hw
 
 
@@ -160,6 +173,7 @@ def tv(wd, tag, lines, diag="", timeout=1500, diag_k=None):
 class Window:
     def __init__(self, group, w, epoch, first):
         self.group, self.w, self.epoch, self.first = group, w, epoch, first  # first: first window of its epoch
+        self.audit = w >= 100000   # read-everything-back window at the end of a database instance (not counted)
         self.lines = []      # raw ndjson lines (Call/Ret/Maint), without Reset / Cut
         self.reset = None    # the Reset line if first
         self.start = 0       # 1-based line number of the first line in the group's trace
@@ -212,7 +226,63 @@ def op_name(op):
     return n
 
 
+def version_lists(win):
+    """key -> [(tx, kind, value)] after the window: the state before it plus the acknowledged writes (tx order); and
+    tx -> sequence number at which that write was acknowledged."""
+    kv = {k: [(x["tx"], x["kind"], x["v"]) for x in v] for k, v in (win.init["kv"] if win.init else {}).items()}
+    acks, calls = {}, {}
+    for e in (json.loads(x) for x in win.lines):
+        if e["ev"] == "Call":
+            calls[e["c"]] = e
+        elif e["ev"] == "Ret" and e["res"]["e"] == "ok" and e["res"]["tx"] > 0:
+            acks[e["res"]["tx"]] = (calls[e["c"]]["op"], e["seq"])
+    for tx in sorted(acks):
+        op = acks[tx][0]
+        if op["t"] == "Set":
+            for x in op["kvs"]:
+                kv.setdefault(x["k"], []).append((tx, "v", x["v"]))
+        elif op["t"] == "Del":
+            for k in op["keys"]:
+                kv.setdefault(k, []).append((tx, "d", ""))
+        elif op["t"] == "Ref":
+            kv.setdefault(op["k"], []).append((tx, "r", ""))
+        elif op["t"] == "Exec":
+            for x in op["ops"]:
+                if x["t"] in ("Kv", "Ref"):
+                    kv.setdefault(x["k"], []).append((tx, "v" if x["t"] == "Kv" else "r", x["v"]))
+    return kv, {tx: a[1] for tx, a in acks.items()}
+
+
 # ---------------------------------------------------------------- binding self-test
+def synthetic_split_history():
+    """Hand-written history (not a recording): b2 -> a0; a concurrent Get(b2) returns a0's value of tx 5 through b2's version
+    of tx 3, although b2 was re-pointed to a1 at tx 4.  Used only to test the classification machinery."""
+    def ent(**kw):
+        d = dict(k="", v="", tx=0, rev=0, rk="", rtx=0, rrev=0, rat=0, sc=0, zat=0, d=False)
+        d.update(kw)
+        return d
+    ok = lambda tx: {"e": "ok", "tx": tx, "ents": [], "n": 0}
+    steps = [(1, mk_op("Set", kvs=[{"k": "a0", "v": "c1-1"}]), ok(1), True),
+             (1, mk_op("Set", kvs=[{"k": "a1", "v": "c1-2"}]), ok(2), True),
+             (1, mk_op("Ref", k="b2", rk="a0"), ok(3), True),
+             (2, mk_op("Get", k="b2", mode="def"),
+              {"e": "ok", "tx": 0, "ents": [ent(k="a0", v="c1-3", tx=5, rev=2, rk="b2", rtx=3, rrev=1)], "n": 0}, False),
+             (1, mk_op("Ref", k="b2", rk="a1"), ok(4), True),
+             (1, mk_op("Set", kvs=[{"k": "a0", "v": "c1-3"}]), ok(5), True)]
+    out, seq, late = [{"ev": "Reset", "w": 0}], 0, None
+    for c, op, res, ret_now in steps:
+        seq += 1
+        out.append({"ev": "Call", "c": c, "seq": seq, "op": op, "res": res, "w": 0})
+        if ret_now:
+            seq += 1
+            out.append({"ev": "Ret", "c": c, "seq": seq, "res": res, "w": 0})
+        else:
+            late = (c, res)
+    out.append({"ev": "Ret", "c": late[0], "seq": seq + 1, "res": late[1], "w": 0})
+    out.append({"ev": "Cut", "w": 0})
+    return [json.dumps(e) + "\n" for e in out]
+
+
 def selftest(chk, wd, wins):
     """(a) a Get is made to return the version that was overwritten before the Get was called -> must be rejected (and
     classified 'stale'); (b) the Ret of an acknowledged write is dropped -> the operation stays pending and the window must
@@ -220,36 +290,19 @@ def selftest(chk, wd, wins):
     stale = dropped = None
     for win in wins:
         evs = [json.loads(x) for x in win.lines]
-        kvs = {k: list(v) for k, v in (win.init["kv"] if win.init else {}).items()}
-        ret_seq = {}
-        # acknowledged single-key Sets of this window: tx -> (key, value, ret seq)
-        calls = {}
-        for e in evs:
-            if e["ev"] == "Call":
-                calls[e["c"]] = e
-            elif e["ev"] == "Ret":
-                c = calls.get(e["c"])
-                if c and c["op"]["t"] == "Set" and len(c["op"]["kvs"]) == 1 and e["res"]["e"] == "ok":
-                    ret_seq[e["res"]["tx"]] = (c["op"]["kvs"][0]["k"], c["op"]["kvs"][0]["v"], e["seq"])
         if stale is None:
+            truth, ack_seq = version_lists(win)
             for i, e in enumerate(evs):
                 if e["ev"] != "Call" or e["op"]["t"] != "Get" or e["op"]["mode"] != "def" or e["res"]["e"] != "ok":
                     continue
                 ent = e["res"]["ents"][0]
-                cur = ret_seq.get(ent["tx"])
-                if ent["rk"] or ent["rev"] < 2 or not cur or cur[2] > e["seq"]:
+                vs = truth.get(ent["k"], [])
+                r = ent["rev"]
+                # the returned version and the one before it are plain values; the returned one was acknowledged before the call
+                if ent["rk"] or r < 2 or r > len(vs) or vs[r - 1][0] != ent["tx"] or vs[r - 2][1] != "v" or ack_seq.get(ent["tx"], 1 << 62) > e["seq"]:
                     continue
-                # the previous version of the key: an acknowledged Set of this window or a version of the initial state
-                prev = [(tx, v) for tx, (k, v, s) in ret_seq.items() if k == ent["k"] and tx < ent["tx"]]
-                prev += [(x["tx"], x["v"]) for x in kvs.get(ent["k"], []) if x["kind"] == "v"]
-                allv = sorted(set([x["tx"] for x in kvs.get(ent["k"], [])] + [tx for tx, (k, v, s) in ret_seq.items() if k == ent["k"]]))
-                if not prev or ent["tx"] not in allv:
-                    continue
-                ptx, pv = max(prev)
-                j = allv.index(ent["tx"])
-                if j == 0 or allv[j - 1] != ptx:
-                    continue   # something else (delete, ExecAll, ...) lies between: keep the corruption simple
-                bad = dict(ent, v=pv, tx=ptx, rev=ent["rev"] - 1)
+                ptx, _, pv = vs[r - 2]
+                bad = dict(ent, v=pv, tx=ptx, rev=r - 1)
                 lines = list(win.lines)
                 e2 = dict(e, res=dict(e["res"], ents=[bad]))
                 lines[i] = json.dumps(e2) + "\n"
@@ -260,7 +313,7 @@ def selftest(chk, wd, wins):
                 w2 = Window(win.group, win.w, win.epoch, win.first)
                 w2.lines, w2.init = lines, win.init
                 stale = (w2, "Get(%s) called at seq %d made to return %r (tx %d), overwritten by tx %d acknowledged at seq %d" %
-                         (ent["k"], e["seq"], pv, ptx, ent["tx"], cur[2]))
+                         (ent["k"], e["seq"], pv, ptx, ent["tx"], ack_seq[ent["tx"]]))
                 break
         if dropped is None:
             per_client = {}
@@ -282,18 +335,28 @@ def selftest(chk, wd, wins):
             break
     if not stale or not dropped:
         raise MachineryFault("binding self-test: no suitable window found (stale=%s dropped=%s)" % (bool(stale), bool(dropped)))
-    with cf.ThreadPoolExecutor(3) as ex:
+    split = synthetic_split_history()
+    with cf.ThreadPoolExecutor(6) as ex:
         f1 = ex.submit(tv, wd, "self_stale", standalone(stale[0], 0))
         f2 = ex.submit(tv, wd, "self_stale_diag", standalone(stale[0], 0), "stale")
         f3 = ex.submit(tv, wd, "self_drop", standalone(dropped[0], 0))
+        f4 = ex.submit(tv, wd, "self_split", split)
+        f5 = ex.submit(tv, wd, "self_split_stale", split, "stale")
+        f6 = ex.submit(tv, wd, "self_split_diag", split, "refsplit")
         (r1, c1, _), (r2, c2, _), (r3, c3, _) = f1.result(), f2.result(), f3.result()
+        (r4, c4, _), (r5, c5, _), (r6, c6, _) = f4.result(), f5.result(), f6.result()
     acc_stale = "strict" in c1.get(0, {})
     cls_stale = "strict" in c2.get(0, {})
     acc_drop = "strict" in c3.get(0, {})
     if acc_stale or not cls_stale or not acc_drop:
         raise MachineryFault("binding self-test failed: altered Get accepted=%s (must be False), classified stale=%s (must be True), "
                              "window with dropped Ret accepted=%s (must be True)" % (acc_stale, cls_stale, acc_drop))
-    chk.cov["binding_selftest"] = ("%s -> rejected by TLC (%d states) and classified 'stale'; %s -> operation stays pending, window accepted (%d states)"
+    sp = ["strict" in c.get(0, {}) for c in (c4, c5, c6)]
+    if sp != [False, False, True]:
+        raise MachineryFault("binding self-test failed: synthetic two-step reference resolution history: accepted by specification / 'stale' / "
+                             "'refsplit' = %s (must be [False, False, True])" % sp)
+    chk.cov["binding_selftest"] = ("%s -> rejected by TLC (%d states) and classified 'stale'; %s -> operation stays pending, window accepted (%d states); "
+                                   "synthetic history with a reference resolved in two steps -> rejected, not 'stale', classified 'refsplit'"
                                    % (stale[1], r1.distinct, dropped[1], r3.distinct))
 
 
@@ -317,8 +380,8 @@ def run(chk, args):
         vlib.log("[c06] group %d: harness done at +%.0fs" % (g, time.time() - chk.t0))
         lines = open(tf).readlines()
         wins = split_windows(g, lines)
-        if len(wins) != per_group:
-            raise MachineryFault("group %d: expected %d windows, got %d" % (g, per_group, len(wins)))
+        if len([w for w in wins if not w.audit]) != per_group:
+            raise MachineryFault("group %d: expected %d windows, got %d" % (g, per_group, len([w for w in wins if not w.audit])))
         res, cuts, hw = tv(wd, "g%d" % g, lines, timeout=3000)
         vlib.log("[c06] group %d: TLC done at +%.0fs (%d states, %.0fs)" % (g, time.time() - chk.t0, res.distinct, res.wall))
         return hr, lines, wins, res, cuts, hw
@@ -339,21 +402,28 @@ def run(chk, args):
             win.init = None if win.first else prev
             win.hw = hw.get(win.w, 0)
             win.accepted = "strict" in c
-            if win.accepted and {k: c["strict"][k] for k in ("committed", "kv")} != {k: c["lenient"][k] for k in ("committed", "kv")}:
-                raise MachineryFault("group %d window %d: strict and lenient pass disagree on the abstract state at the cut" % (g, win.w))
             prev = c["lenient"]
             if not win.accepted:
                 rejected.append((win, lines))
             all_wins.append(win)
-    chk.cov["windows"] = len(all_wins)
-    chk.cov["windows_accepted"] = sum(1 for w in all_wins if w.accepted)
+    corrupted = {(w.group, w.epoch) for w in all_wins if w.audit and not w.accepted}
+    counted = [w for w in all_wins if not w.audit]
+    chk.cov["windows"] = len(counted)
+    chk.cov["windows_accepted"] = sum(1 for w in counted if w.accepted)
+    chk.cov["audit_windows"] = sum(1 for w in all_wins if w.audit)
+    chk.cov["audit_windows_rejected"] = len(corrupted)
     chk.cov["operations_validated"] = nops
-    chk.cov["traces_validated_against_impl"] = len(all_wins)     # one trace = one window of a real concurrent execution
+    chk.cov["traces_validated_against_impl"] = len(counted)      # one trace = one window of a real concurrent execution
     for w in all_wins[:2]:
         chk.sample({"window": w.w, "config": w.cfg, "events": [json.loads(x) for x in w.lines[:6]]})
 
     # ---- rejected windows: re-validate alone, classify, report
     if rejected:
+        os.makedirs(vlib.REPLAYS, exist_ok=True)
+        for i, (win, _) in enumerate(rejected[:16]):      # kept for inspection whatever happens next
+            json.dump({"property": "C06", "seed": chk.seed, "group": win.group, "window": win.w, "config": win.cfg,
+                       "trace": [json.loads(x) for x in standalone(win, 0)]},
+                      open(os.path.join(vlib.REPLAYS, "C06-rejected-window-%d-%d.json" % (chk.seed, i)), "w"))
         lines = []
         for i, (win, _) in enumerate(rejected):
             lines += standalone(win, i)
@@ -368,6 +438,13 @@ def run(chk, args):
         def explained(d, i):
             return "strict" in runs[d][1].get(i, {})
         todo = [i for i in range(len(rejected)) if not explained("stale", i) and not explained("refsplit", i)]
+        # the read-everything-back window of the same database instance was rejected too: the index no longer agrees with the
+        # committed log (persistent damage) - no further classification
+        for i in list(todo):
+            win = rejected[i][0]
+            if (win.group, win.epoch) in corrupted:
+                classes[i] = "index-corrupted"
+                todo.remove(i)
         # rare: neither alone explains the window -> both together; then an unbounded look-back
         for name, d, k in (("both", "both", None), ("stale-all", "stale", "all"), ("both-all", "both", "all")):
             if not todo:
@@ -405,14 +482,25 @@ def run(chk, args):
             compact = any('"Maint"' in x and '"compact"' in x and json.loads(x)["epoch"] == win.epoch and json.loads(x)["seq0"] < seq
                           for x in glines)
             ctx = "CompactIndex-restart" if compact else "no-compaction"
+            if win.audit:
+                opn = "audit:" + opn
             sig = "%s:%s:%s" % (cls, ctx, opn)
             text = ("window %d (group %d, %s) of a real concurrent execution of pkg/database has no linearization: every placement of the "
                     "linearization points fails at or before the return of client %s's %s -> %s; class: %s; %s"
                     % (win.w, win.group, win.cfg, stuck.get("c"), json.dumps(blamed["op"]) if blamed else "?", json.dumps(stuck.get("res")), cls,
                        "CompactIndex had been called earlier on this database instance" if compact else "CompactIndex was never called on this database instance"))
-            chk.violation(sig, text, {"trace": [json.loads(x) for x in standalone(win, 0)], "stuck_event": stuck, "blamed_call": blamed,
+            vlib.log("[c06] rejected: %s | %s" % (sig, text[:700]))
+            chk.cov.setdefault("rejected_windows", []).append({"signature": sig, "window": win.w, "group": win.group, "config": win.cfg,
+                                                               "stuck_call": blamed["op"] if blamed else None, "stuck_result": stuck.get("res")})
+            replay = {"trace": [json.loads(x) for x in standalone(win, 0)], "stuck_event": stuck, "blamed_call": blamed,
                                       "class": cls, "config": win.cfg,
-                                      "how_to_replay": "write 'trace' as ndjson, VERIF_TRACE=<file> tlc -workers 1 -config TraceKVLin.cfg TraceKVLin.tla (depth-first queue): no strict Cut is printed"})
+                      "how_to_replay": "write 'trace' as ndjson, VERIF_TRACE=<file> tlc -workers 1 -config TraceKVLin.cfg TraceKVLin.tla (depth-first queue): no strict Cut is printed"}
+            if not chk.violation(sig, text, replay):
+                # known finding: keep the first window per signature for inspection (vlib only saves replays of violations)
+                os.makedirs(vlib.REPLAYS, exist_ok=True)
+                rp = os.path.join(vlib.REPLAYS, "C06-known-%s-%d.json" % (re.sub(r"[^A-Za-z0-9_.-]+", "_", sig)[:80], chk.seed))
+                if not os.path.exists(rp):
+                    json.dump({"property": "C06", "signature": sig, "what": text, "seed": chk.seed, "replay": replay}, open(rp, "w"), indent=1)
         chk.cov["windows_rejected"] = len(rejected)
     # ---- exhaustive sanity run
     mct.join()
